@@ -38,7 +38,9 @@ RULE = ('seeded random prescriptions: single surfaces (plane, sphere, conic kapp
         'traces); ray origins far and very far from the first surface (1e3, 1e5, 1e7, 1e9 length units, either side, tilted and '
         'decentred frames) and the documented "from infinity" form P = [x, y, -+1e99], S = [0, 0, +-1]; hits 1e-6..1e-12 of the '
         'aperture away from the vertex; tiny (0.02) and large (300) apertures; intersect() called directly with far origins, a '
-        'non-zero initial guess s1 and a user eps; off_axis_conic_sag/der in both shift branches against the model and against Richardson derivatives of the same '
+        'non-zero initial guess s1 and a user eps; batches that mix hitting rays with rays that miss (parallel to the vertex plane, far '
+        'outside the domain, NaN origin) with the batch-independence predicate trace(batch)[i] == trace([ray_i]); histories on Surface '
+        'objects (build, trace, modify params / P / R / n / typ in place, trace again == freshly built surface); off_axis_conic_sag/der in both shift branches against the model and against Richardson derivatives of the same '
         'sag; Q-type freeform surfaces (FFp assembled from Q2d_and_der, base conic unshifted / shifted in x / shifted in y) traced '
         'in reflection and refraction, checked against the numerical gradient of their own sag (1e-7).  A case is non-trivial unless the ray is on-axis through an '
         'untilted plane; distinct = distinct (item, input) tuples')
@@ -376,6 +378,21 @@ def _rays_for(rng, spec, Rm, a, nrays, n_in, backward=False, maxang=None, far=No
     return np.array(Ps), np.array(Ss), tags
 
 
+def _miss_rays(rng, spec, Rm, a):
+    """rays that do not hit: parallel to the local vertex plane, aimed far outside the surface's domain, NaN origin"""
+    Rm_ = np.eye(3) if Rm is None else np.asarray(Rm)
+    P0 = _pvec(spec['P'])
+    rows = []
+    Sl = np.array([1.0, 0.0, 0.0])                                   # m = 0 in the surface frame: s0 = -Z0/0
+    rows.append((Rm_.T @ np.array([0.0, 0.3 * a, -5.0]) + P0, Rm_.T @ Sl))
+    far = np.array([1e6 * a, -2e6 * a, 0.0])                          # (1+k) c^2 rho^2 >> 1: no surface there
+    rows.append((Rm_.T @ far + P0 - 10.0 * (Rm_.T @ np.array([0.0, 0.0, 1.0])), Rm_.T @ np.array([0.0, 0.0, 1.0])))
+    rows.append((np.array([np.nan, 0.0, -10.0]), np.array([0.0, 0.0, 1.0])))
+    k = int(rng.integers(0, 3))
+    rows = rows[k:] + rows[:k]
+    return np.array([r[0] for r in rows]), np.array([r[1] for r in rows])
+
+
 def _rand_frame(rng, tilted, z=0.0):
     P = [float(rng.uniform(-2, 2)), float(rng.uniform(-2, 2)), float(z + rng.uniform(-1, 1))]
     R = None
@@ -626,15 +643,37 @@ def correspondence(ctx):
                 ctx.pred_fail('surface_frame', {'kind': 'refl', 'P': list(sp['P']), 'R': None, 'shape': ['plane'], 'form': sp.get('form', 0)},
                               f'Surface.P = {np.asarray(sf_.P).tolist()} for the documented position form')
         P, S, tags = _rays_for(rng, specs[0], mats[0], pr['a'], nrays, pr['n0'], maxang=pr.get('maxang'), backward=pr.get('backward', False), far=pr.get('far'))
+        # BATCH INDEPENDENCE: the batch call also carries rays that do NOT hit (parallel to the vertex plane, far outside the surface's
+        # domain, NaN origin); every hitting ray must come out as if it were traced alone (the model and the single-ray calls are per ray)
+        Pm, Sm = _miss_rays(rng, specs[0], mats[0], pr['a'])
+        kept = {}
         for single in ((False, True) if (idx // 8) % 2 == 0 else (False,)):
             try:
-                P_hist, S_hist, _ = run_impl(specs, P, S, pr['n0'], single=single)
+                if single:
+                    P_hist, S_hist, _ = run_impl(specs, P, S, pr['n0'], single=True)
+                else:
+                    P_hist, S_hist, _ = run_impl(specs, np.vstack([P, Pm]), np.vstack([S, Sm]), pr['n0'], single=False)
+                    P_hist, S_hist = P_hist[:, :len(P)], S_hist[:, :len(P)]
+                    ctx.hist['trace:batches-with-missing-rays'] += 1
                 err = None
+                kept[single] = (P_hist, S_hist)
             except Exception as ex:
                 err = f'raised {type(ex).__name__}: {ex}'
-            jobs.append(('trace', specs, mats, P, S, pr['n0'], tags, single, None if err else (P_hist, S_hist), err))
+            jobs.append(('trace', specs, mats, P, S, pr['n0'], tags, single, None if err else (P_hist, S_hist), err,
+                         None if single else {'P': Pm.tolist(), 'S': Sm.tolist()}))
             for p, s in zip(P, S):
                 lines.append(trace_line(specs, mats, p, s, pr['n0']))
+        if len(kept) == 2:
+            (pb, sb), (p1, s1) = kept[False], kept[True]
+            for i in range(len(P)):
+                same = np.array_equal(np.isfinite(pb[:, i]), np.isfinite(p1[:, i])) and np.array_equal(np.isfinite(sb[:, i]), np.isfinite(s1[:, i])) \
+                    and np.allclose(pb[:, i], p1[:, i], rtol=1e-12, atol=1e-12, equal_nan=True) and np.allclose(sb[:, i], s1[:, i], rtol=0, atol=1e-12, equal_nan=True)
+                ctx.case('batch_independence', {'n': len(P)}, nontrivial=False)
+                if not same:
+                    ctx.pred_fail('trace', {**_case_of(specs, P[i], S[i], pr['n0'], False), 'with': {'P': Pm.tolist(), 'S': Sm.tolist()}},
+                                  f'ray {i} traced in a batch together with rays that miss the surface differs from the same ray traced alone: '
+                                  f'{pb[-1, i].tolist()} {sb[-1, i].tolist()} vs {p1[-1, i].tolist()} {s1[-1, i].tolist()}')
+                    break
 
     # ---------------- unit streams
     nunit = ctx.scale(200, 3000)
@@ -731,11 +770,13 @@ def correspondence(ctx):
     for job in jobs:
         kind = job[0]
         if kind == 'trace':
-            _, specs, mats, P, S, n0, tags, single, out, err = job
+            _, specs, mats, P, S, n0, tags, single, out, err, withrays = job
             k = len(specs)
             for i, (p, s) in enumerate(zip(P, S)):
                 model = parse_trace(next(rep), k)
                 case = _case_of(specs, p, s, n0, single)
+                if withrays is not None:
+                    case['with'] = withrays          # the other (missing) rays of the batch: needed to replay a batch effect
                 trivial = tags[i] == 'axis' and k == 1 and specs[0]['shape'][0] == 'plane' and specs[0].get('R') is None
                 sh0 = specs[0]['shape'][0]
                 ctx.case('trace', case, nontrivial=not trivial,
@@ -900,6 +941,7 @@ def correspondence(ctx):
 
     _qtype_stream(ctx)
     _intersect_stream(ctx)
+    _history_stream(ctx)
     _floors(ctx)
 
 
@@ -952,16 +994,96 @@ def _intersect_stream(ctx):
             ctx.pred_fail('intersect', c, b)
 
 
+def history_eval(c):
+    """build a Surface, trace, MODIFY its public attributes in place (params entries, P, R, n, typ -- what an optimiser, a tolerancing
+    loop or a focus compensator does), trace again: the result must equal that of a freshly built surface with the new values"""
+    sf, sm, co = _impl()
+    s0, s1 = c['spec0'], c['spec1']
+    P = np.array(c['P'], dtype=float)
+    S = np.array(c['S'], dtype=float)
+    surf = build_surface(s0)
+    with np.errstate(all='ignore'):
+        first = sm.raytrace([surf], P.copy(), S.copy(), 0.6328, n_ambient=c['n0'])
+        again = sm.raytrace([surf], P.copy(), S.copy(), 0.6328, n_ambient=c['n0'])
+    bad = []
+    if not (np.array_equal(first[0], again[0], equal_nan=True) and np.array_equal(first[1], again[1], equal_nan=True)):
+        bad.append('tracing the same surface object twice with the same rays gives different results')
+    fresh = build_surface(s1)
+    for what in c['mutate']:
+        if what == 'params':
+            for k_, v_ in (fresh.params or {}).items():      # a plane has no parameters
+                surf.params[k_] = v_
+        elif what == 'P':
+            surf.P = np.array(fresh.P, copy=True)
+        elif what == 'R':
+            surf.R = None if fresh.R is None else np.array(fresh.R, copy=True)
+        elif what == 'n':
+            surf.n = fresh.n
+        elif what == 'typ':
+            surf.typ = fresh.typ
+    with np.errstate(all='ignore'):
+        got = sm.raytrace([surf], P.copy(), S.copy(), 0.6328, n_ambient=c['n0'])
+        exp = sm.raytrace([fresh], P.copy(), S.copy(), 0.6328, n_ambient=c['n0'])
+    if not (np.allclose(got[0], exp[0], rtol=1e-13, atol=1e-13, equal_nan=True) and np.allclose(got[1], exp[1], rtol=0, atol=1e-13, equal_nan=True)):
+        dev = float(np.nanmax(np.abs(np.asarray(got[1]) - np.asarray(exp[1]))))
+        bad.append(f'after modifying {c["mutate"]} of an existing Surface in place the trace differs from a freshly built surface with the '
+                   f'same values (max direction-cosine deviation {dev:.3e})')
+    return bad
+
+
+def _history_stream(ctx):
+    rng = ctx.rng
+    for i in range(ctx.scale(60, 900)):
+        a = float(rng.choice([2.0, 5.0, 12.5]))
+        kind = ['refl', 'refr'][i % 2]
+        sh0 = _rand_shape(rng, a)
+        if sh0[0] == 'plane' and i % 5:
+            sh0 = ('conic', 0.3 / a, -1.0)
+        # the same family of shape with new parameter values
+        if sh0[0] == 'plane':
+            sh1 = sh0
+        elif sh0[0] == 'sphere':
+            sh1 = ('sphere', sh0[1] * float(rng.uniform(0.5, 1.5)))
+        elif sh0[0] == 'conic':
+            sh1 = ('conic', sh0[1] * float(rng.uniform(0.5, 1.5)), float(rng.choice(KAPPAS)))
+        else:
+            sh1 = ('offaxis', sh0[1] * float(rng.uniform(0.5, 1.5)), float(rng.choice(KAPPAS)), sh0[3] * 1.1, sh0[4] * 1.1)
+        P0, R0 = _rand_frame(rng, tilted=bool(i % 3 == 0))
+        P1, R1 = _rand_frame(rng, tilted=bool(i % 3 != 1))
+        s0 = {'kind': kind, 'P': P0, 'R': R0, 'shape': list(sh0), 'n': 1.5168, 'form': 0}
+        mutate = [['params'], ['params', 'P'], ['P', 'R'], ['n', 'typ'], ['params', 'P', 'R', 'n', 'typ']][i % 5]
+        s1 = dict(s0)
+        if 'params' in mutate:
+            s1['shape'] = list(sh1)
+        if 'P' in mutate:
+            s1['P'] = P1
+        if 'R' in mutate:
+            s1['R'] = R1
+        if 'n' in mutate:
+            s1['n'] = 1.7
+        if 'typ' in mutate:
+            s1['kind'] = 'refr' if kind == 'refl' else 'refl'
+        Pr, Sr, _ = _rays_for(rng, s0, None if R0 is None else _rot_deg(R0), a, 6, 1.0)
+        c = {'spec0': s0, 'spec1': s1, 'mutate': mutate, 'P': Pr.tolist(), 'S': Sr.tolist(), 'n0': 1.0}
+        ctx.case('surface_history', c, tag=f'{sh0[0]}/{"+".join(mutate)}')
+        try:
+            bad = history_eval(c)
+        except Exception as ex:
+            bad = [f'raised {type(ex).__name__}: {ex}']
+        for b in bad[:1]:
+            ctx.pred_fail('surface_history', c, b)
+
+
 def _floors(ctx):
     """a run must not hollow out silently: skipped / out-of-scope cases are counted, and too few executed ones is a TOOL error"""
     h = ctx.hist
     ntr = ctx.items.get('trace', 0)
     need = {'trace:checked': 0.7 * ntr, 'trace:checked/1surf': 0.3 * ntr, 'trace:checked/2surf': 0.03 * ntr,
             'trace:checked/3surf': 0.1 * ntr, 'trace:checked/nearcrit': 3, 'trace:checked/origin-at-1e99': 0.01 * ntr,
-            'trace:checked/nearvertex': 0.05 * ntr, 'trace:checked/refraction-against-the-normal': 0.02 * ntr,
+            'trace:checked/nearvertex': 0.05 * ntr, 'trace:batches-with-missing-rays': 100, 'trace:checked/refraction-against-the-normal': 0.02 * ntr,
             'refract:near-critical-sloped': 100, 'off_axis_polar:dx': 30, 'off_axis_polar:dy': 30,
-            'qtype_trace:refl/dx': 10, 'qtype_trace:refr/dx': 10, 'qtype_trace:refl/dy': 10, 'qtype_trace:refr/dy': 10}
-    low = {k: (h.get(k, 0), int(v)) for k, v in need.items() if h.get(k, 0) < v}
+            'qtype_trace:refl/dx': 10, 'surface_history': 40, 'qtype_trace:refr/dx': 10, 'qtype_trace:refl/dy': 10, 'qtype_trace:refr/dy': 10}
+    low = {k: (h.get(k, ctx.items.get(k, 0)), int(v)) for k, v in need.items() if h.get(k, ctx.items.get(k, 0)) < v}
     if low:
         raise C.ToolError(f'C19 correspondence executed too few cases (got, floor): {low}')
 
@@ -991,11 +1113,18 @@ def eval_case(case):
     specs = case['surfaces']
     P = np.array([case['P']], dtype=float)
     S = np.array([case['S']], dtype=float)
+    if case.get('with'):
+        P = np.vstack([P, np.array(case['with']['P'], dtype=float)])
+        S = np.vstack([S, np.array(case['with']['S'], dtype=float)])
     try:
         P_hist, S_hist, mats = run_impl(specs, P, S, case.get('n0', 1.0), single=case.get('api') == 'single')
     except Exception as ex:
         return [f'raytrace raised {type(ex).__name__}: {ex}'], None
     ph, sh = P_hist[:, 0, :], S_hist[:, 0, :]
+    if case.get('with'):
+        p1, s1, _ = run_impl(specs, P[:1], S[:1], case.get('n0', 1.0), single=False)
+        if not (np.allclose(ph, p1[:, 0, :], rtol=1e-12, atol=1e-12, equal_nan=True) and np.allclose(sh, s1[:, 0, :], rtol=0, atol=1e-12, equal_nan=True)):
+            return [f'the ray traced in a batch with rays that miss differs from the same ray traced alone: {ph[-1].tolist()} vs {p1[-1, 0].tolist()}'], (ph, sh)
     return check_physics(specs, mats, ph, sh, case.get('n0', 1.0)), (ph, sh)
 
 
@@ -1038,6 +1167,16 @@ def search(ctx, hints):
         bad, _ = eval_case(c)
         if bad:
             return {'item': 'trace', 'input': c, 'detail': bad[0]}
+    for shp0, shp1 in ((['conic', 0.02, -1.0], ['conic', 0.03, 0.0]), (['sphere', 0.02], ['sphere', -0.02])):
+        hc = {'spec0': {'kind': 'refl', 'P': [0.0, 0.0, 0.0], 'R': None, 'shape': shp0, 'n': 1.5, 'form': 0},
+              'spec1': {'kind': 'refl', 'P': [0.0, 0.0, 0.0], 'R': None, 'shape': shp1, 'n': 1.5, 'form': 0},
+              'mutate': ['params'], 'P': [[3.0, 4.0, -10.0], [0.0, 0.0, -10.0]], 'S': [[0.0, 0.0, 1.0], [0.0, 0.0, 1.0]], 'n0': 1.0}
+        try:
+            hb = history_eval(hc)
+        except Exception as ex:
+            hb = [f'raised {type(ex).__name__}: {ex}']
+        if hb:
+            return {'item': 'surface_history', 'input': hc, 'detail': hb[0]}
     # Q-type surfaces and the public polar routines
     qrng = np.random.Generator(np.random.PCG64(2024))
     for i in range(12):
@@ -1109,6 +1248,11 @@ def replay(inp):
         if out is not None:
             print('P_hist', out[0].tolist())
             print('S_hist', out[1].tolist(), ' |S| =', np.linalg.norm(out[1], axis=1).tolist())
+        for b in bad:
+            print('  ', b)
+        return bool(bad)
+    if item == 'surface_history':
+        bad = history_eval(c)
         for b in bad:
             print('  ', b)
         return bool(bad)
